@@ -310,6 +310,48 @@ def sweeps(tier, rng):
             except Exception as e:
                 bad = "TTGlyphPointPen raised %r on %r" % (e, conts)
             yield (("ttglyph-implied", conts), bad)
+        # cubic curves stored in glyf (glyf format 1): several contours, each starting at ANY of its points — also on a "curve"
+        # point whose two off-curve points are then the last points of the contour
+        for i in range(n):
+            conts = []
+            for _ in range(rng.randint(1, 4)):
+                pts = []
+                for _s in range(rng.randint(2, 5)):
+                    if rng.chance(60):
+                        pts += [((rng.randint(-400, 400), rng.randint(-400, 400)), None), ((rng.randint(-400, 400), rng.randint(-400, 400)), None)]
+                        pts.append(((rng.randint(-400, 400), rng.randint(-400, 400)), "curve"))
+                    else:
+                        pts.append(((rng.randint(-400, 400), rng.randint(-400, 400)), "line"))
+                # start on an on-curve point (glyf cubic contours need one to anchor the off-curve pairs), any of them
+                ons = [j for j, (_, t_) in enumerate(pts) if t_ is not None]
+                r_ = rng.choice(ons); pts = pts[r_:] + pts[:r_]
+                conts.append(pts)
+            bad = None
+            try:
+                ref = RecordingPen(); p2s = PointToSegmentPen(ref)
+                for pts in conts:
+                    p2s.beginPath()
+                    for p_, t_ in pts: p2s.addPoint(p_, t_)
+                    p2s.endPath()
+                want = G.canon(ref.value)
+                fl = lambda cs_: sorted(repr([(c[0], [(s[0],) + tuple((float(p[0]), float(p[1])) for p in s[1:]) for s in c[1]])]) for c in cs_)
+                for drop in (False, True):
+                    pp = TTGlyphPointPen(None)
+                    for pts in conts:
+                        pp.beginPath()
+                        for p_, t_ in pts: pp.addPoint(p_, t_)
+                        pp.endPath()
+                    g = pp.glyph(dropImpliedOnCurves=drop)
+                    rec = RecordingPen(); g.draw(rec, None)
+                    if fl(G.canon(rec.value)) != fl(want):
+                        bad = "TTGlyphPointPen(dropImpliedOnCurves=%r) changed the cubic outline: %r -> %r" % (drop, conts, rec.value); break
+                    sp = TTGlyphPen(None); ref.replay(sp); g2 = sp.glyph(dropImpliedOnCurves=drop)
+                    rec = RecordingPen(); g2.draw(rec, None)
+                    if fl(G.canon(rec.value)) != fl(want):
+                        bad = "TTGlyphPen(dropImpliedOnCurves=%r) changed the cubic outline: %r -> %r" % (drop, ref.value, rec.value); break
+            except Exception as e:
+                bad = "TTGlyph(Point)Pen raised %r on cubic contours %r" % (e, conts)
+            yield (("ttglyph-cubic", conts), bad)
         for i in range(n // 2):
             calls = []
             for _ in range(rng.randint(1, 3)):
